@@ -25,6 +25,8 @@ def run(tier, only=None):
 
     progs = f01.all_programs(tier)
     progs = f01.select(progs, "quick", seed(), 320 if tier == "quick" else 6000)
+    # (both tiers) a group-by over a filtered join of two filtered inputs, three filters in all, timed z3 out at 60 s in the quick tier as well
+    progs = [p for p in progs if not (".merge(" in p.text and p.text.count("(lambda Y") >= 3 and ".groupby(" in p.text)]
     if tier != "quick":
         # solver budget (measured: every z3 timeout of the thorough tier at 300 s had one of these shapes): a reduction / group-by over a
         # filtered join of filtered inputs, or over an OR-filter above a join / shuffle, is bounded out of the thorough family; the
@@ -32,5 +34,5 @@ def run(tier, only=None):
         progs = [p for p in progs if not _beyond_budget(p.text)]
     results, info = pfam.run(progs, prun.check_stage_equiv, only)
     info["rule"] = "one obligation per (program, optimiser stage): z3 decides stage-plan == unoptimised-plan for all table contents; non-trivial = plans differ structurally"
-    info["bounds"] = "rows<=5, partitions<=3, depth<=2/3; thorough: reductions over filtered joins of filtered inputs bounded out (solver budget)"
+    info["bounds"] = "rows<=5, partitions<=3, depth<=2/3; group-bys over a filtered join of two filtered inputs bounded out in both tiers, thorough: all reductions over filtered joins of filtered inputs (solver budget)"
     return "translation_validation", results, info, ASSUMPTIONS
